@@ -17,6 +17,7 @@ RawStep(n, st, c, m, rt) ==
     ELSE IF m.from \in DOMAIN n.pr \/ m.ty \notin ResponseTypes THEN Step(n, st, c, m, rt)
     ELSE [n |-> n, err |-> TRUE]
 
+NE(n, err) == [n |-> n, err |-> err]
 Local(ty, from) == [Msg(ty, 0) EXCEPT !.from = from]
 DataEntry(p, sz) == [EmptyEntry EXCEPT !.p = p, !.sz = sz]
 RawPropose(n, st, c, ents, rt) == Step(n, st, c, [Local("Prop", n.id) EXCEPT !.ents = ents], rt)
